@@ -8,6 +8,8 @@
 //	             with enumerated index answers; level views; ReadAndAdd law; operation sequences
 //	gaussian.go  support/consistency under enumerated ziggurat answers (all 128 strips, slow paths, refill); stratified
 //	             quadrature of mean/sd; big-number path; ReadAndAdd law; operation sequences over level views
+//	largering.go every sampler kind at N = 2^10 .. 2^17 on two moduli (specification sampler, twin sampler, support, exact H,
+//	             moments): faults that depend on the ring degree
 //	repro.go     KeyedPRNG equal keys / Reset / every one-bit key flip; samplers on keyed generators; SampleCRP;
 //	             EvaluationKey.Expand
 package main
@@ -72,6 +74,11 @@ func scenarios(tier string) []engine.Scenario {
 	scs = append(scs, ringqpConstructionLevelScenario(2))
 	for first := range encOps {
 		scs = append(scs, encryptorMaskStreamScenario(first, encDepth))
+	}
+	for _, logN := range lrLogNs(thorough) {
+		for _, d := range lrDists {
+			scs = append(scs, largeRingScenario(logN, d))
+		}
 	}
 	return scs
 }
@@ -142,6 +149,11 @@ func main() {
 			}
 			for _, k := range samplerKinds() {
 				e = append(e, "repro-sampler="+k.name)
+			}
+			for _, logN := range lrLogNs(tier == "thorough") {
+				for _, d := range lrDists {
+					e = append(e, fmt.Sprintf("large-ring=2^%d/%s", logN, d.name))
+				}
 			}
 			e = append(e, "ternary-ky=0.6667", "ternary-ky=0.2500", "ternary-half=tiny", "ternary-half=mixed")
 			return e
